@@ -305,6 +305,17 @@ impl BudgetEnforcer {
     ///
     /// Returns `Err(BudgetBreach)` as soon as a limit is exceeded.
     pub fn observe(&mut self, ev: &Event) -> Result<(), BudgetBreach> {
+        if self.policy == EnforcingPolicy::PerDocument {
+            match ev {
+                // A document is charged from its own DocumentStart on: forget the previous
+                // document BEFORE this event is counted, so that the start of the next document
+                // is never charged to (and can never breach the limits of) the one already read.
+                Event::DocumentStart(_) => self.begin_document(),
+                // Stream framing belongs to no document.
+                Event::StreamStart | Event::StreamEnd => return Ok(()),
+                _ => {}
+            }
+        }
         self.report.events += 1;
         if self.report.events > self.budget.max_events {
             return Err(BudgetBreach::Events {
@@ -385,9 +396,7 @@ impl BudgetEnforcer {
                 self.handle_alias();
             }
             Event::DocumentStart(_explicit) => {
-                if self.policy == EnforcingPolicy::PerDocument {
-                    self.begin_document();
-                } else {
+                if self.policy != EnforcingPolicy::PerDocument {
                     self.report.documents += 1;
                     if self.report.documents > self.budget.max_documents {
                         return Err(BudgetBreach::Documents {
@@ -413,6 +422,21 @@ impl BudgetEnforcer {
             self.defined_anchors.clear();
             self.depth = 0;
             self.containers.clear();
+        }
+    }
+
+    /// Tell the enforcer that a document begins at `ev` (its `DocumentStart`) when the events
+    /// before it bypassed [`observe`] (the streaming reader skips the rest of a failed document
+    /// without observing it). Under the per-document policy the event is observed like any other
+    /// `DocumentStart`: the previous document is forgotten and the `DocumentStart` is the first
+    /// event charged to the new one, so a document read right after an abandoned one is charged
+    /// exactly like a document anywhere else. Under the whole-input policy skipped events are not
+    /// counted and this is a no-op.
+    pub(crate) fn begin_document_at(&mut self, ev: &Event) -> Result<(), BudgetBreach> {
+        if self.policy == EnforcingPolicy::PerDocument {
+            self.observe(ev)
+        } else {
+            Ok(())
         }
     }
 
